@@ -267,6 +267,33 @@ def s3_items(tier):
     return [[lo, lo + 50] for lo in range(0, 850, 50)]
 
 
+def _s3_fail(envr, c, k, v, member, what):
+    """a spelling of member k failed in the symbolic run: confirm on the real code (the spellings are concrete values)"""
+    from pyvc import concretize
+    SP = envr.program.modules['ansi_string'].native._AnsiSettingPoint
+    if isinstance(v, (str, int)):
+        nv = v
+    elif isinstance(v, sym.PList):
+        nv = list(v.items)
+    elif isinstance(v, tuple):
+        nv = tuple(list(x.items) if isinstance(x, sym.PList) else x for x in v)
+    else:
+        nv = member
+    want = [str(s) for s in member.ansi_settings]
+    try:
+        got = [str(s) for s in SP._scrub_ansi_settings(nv)]
+        msg = None if got == want else 'settings %r instead of %r' % (got, want)
+    except Exception as e:  # noqa
+        msg = 'raised %s: %s' % (type(e).__name__, e)
+    if msg is None:
+        raise sym.Unsupported('S3: symbolic run (%s) and native run disagree for %r' % (what, nv))
+    c.record('spelling-gives-the-member-settings', False, 'z3', '%s: %r %s' % (k, nv, msg), native_replay={
+        'status': 'REPRODUCED', 'call': '_AnsiSettingPoint._scrub_ansi_settings',
+        'pre': {'self': None, 'args': [concretize.describe(nv)], 'kwargs': {}},
+        'failed_clauses': ['spelling-gives-the-member-settings (%s: %s)' % (k, msg)], 'result': None, 'exception': None,
+        'post_self': None})
+
+
 def s3_task(envr, item):
     lo, hi = item
     I = envr.interp
@@ -279,6 +306,13 @@ def s3_task(envr, item):
             member = fmt[k]
             expected = sym.PList([str(s) for s in member.ansi_settings])
             variants = [k, k.lower(), k.lower().replace('_', ' '), k.title().replace('_', '-'), I.lift_enum(member)]
+            if k.count('_') >= 2:
+                # spaces and hyphens mixed in one name, letter case alternating
+                parts = k.split('_')
+                mixed = parts[0].lower()
+                for j, part in enumerate(parts[1:]):
+                    mixed += (' ' if j % 2 else '-') + (part.upper() if j % 2 else part.capitalize())
+                variants.append(mixed)
             codes = ';'.join(str(s) for s in member.ansi_settings)
             if all(ch.isdigit() or ch == ';' for ch in codes):
                 variants.append(codes)                                   # ';'-separated codes as one string
@@ -290,10 +324,13 @@ def s3_task(envr, item):
                 try:
                     res = I.call_name('_AnsiSettingPoint._scrub_ansi_settings', v)
                 except sym.PyExc as e:
-                    c.fail('spelling-accepted:%s' % k, 'raised %r for %r' % (e, v))
+                    _s3_fail(envr, c, k, v, member, 'raised %r' % (e,))
                     continue
                 got = I.call_name('texts', res)
-                c.prove('same-settings:%s' % k, I.truth(I.bm.v_eq(I, got, expected)), detail=repr(v)[:60])
+                if I.truth(I.bm.v_eq(I, got, expected)):
+                    c.prove('same-settings:%s' % k, True, detail=repr(v)[:60])
+                else:
+                    _s3_fail(envr, c, k, v, member, 'different settings')
                 for s in res.items:
                     c.prove('parsable:%s' % k, I.truth(I.call_name('parsable_spec', I.bm.to_str(I, s))))
         c.in_spec -= 1
@@ -581,8 +618,8 @@ GROUPS.append(Group('S2', 'negative integers (any position, any nesting, in a st
 # ------------------------------------------------------------------------------------------ S6: mixtures of forms
 CL_MIX = [Clause('list-is-concatenation-of-its-elements', 'post_scrub_concat'),
           Clause('make-unique-copies-setting-objects', 'post_scrub_unique_mix')]
-S6_KINDS = ('name', 'enum', 'int', 'intpair', 'setobj', 'rgbstr', 'c256str', 'intstr', 'intpairstr', 'verbatim', 'nested', 'empty', 'helper')
-S6_STRINGY = ('name', 'rgbstr', 'c256str', 'intstr', 'intpairstr', 'empty')
+S6_KINDS = ('name', 'enum', 'int', 'intro', 'introstr', 'intpair', 'setobj', 'rgbstr', 'c256str', 'intstr', 'intpairstr', 'verbatim', 'nested', 'empty', 'helper')
+S6_STRINGY = ('name', 'rgbstr', 'c256str', 'intstr', 'introstr', 'intpairstr', 'empty')
 
 
 def s6_items(tier):
@@ -601,7 +638,7 @@ def _elems(v):
     return list(v) if isinstance(v, _Splice) else [v]
 
 
-def _s6_value(envr, c, kind, tag):
+def _s6_value(envr, c, kind, tag, no_selector=False):
     """(value, objects handed in) of one element of the given kind; integers never are colour-group introducers"""
     I = envr.interp
     fmt = envr.program.enum_native['AnsiFormat']
@@ -609,14 +646,25 @@ def _s6_value(envr, c, kind, tag):
         return ['Bold', 'bg-blue', 'UL RED', 'dul_rgb(1,2,3)'][c.choice(4)], []
     if kind == 'enum':
         return I.lift_enum(fmt[['ITALIC', 'FG_ORANGE', 'UL_BLUE'][c.choice(3)]]), []
+    def plain(v):
+        c.assume(b_and(i_cmp('!=', v, 38), i_cmp('!=', v, 48), i_cmp('!=', v, 58)))
+        if no_selector:
+            # directly after a lone introducer a 5 or 2 would (legitimately) be read as its selector
+            c.assume(b_and(i_cmp('!=', v, 5), i_cmp('!=', v, 2)))
     if kind == 'int':
         v = c.named_int('i' + tag, 0, 255)
-        c.assume(b_and(i_cmp('!=', v, 38), i_cmp('!=', v, 48), i_cmp('!=', v, 58)))
+        plain(v)
         return v, []
+    if kind in ('intro', 'introstr'):
+        # a lone extended-colour introducer (kept as a setting of its own wherever it stands)
+        v = [38, 48, 58][c.choice(3)]
+        return (v if kind == 'intro' else str(v)), []
     if kind in ('intpair', 'intpairstr'):
         vs = [c.named_int('p%d%s' % (j, tag), 0, 255) for j in range(2)]
         for v in vs:
             c.assume(b_and(i_cmp('!=', v, 38), i_cmp('!=', v, 48), i_cmp('!=', v, 58)))
+        if no_selector:
+            c.assume(b_and(i_cmp('!=', vs[0], 5), i_cmp('!=', vs[0], 2)))
         if kind == 'intpair':
             return _Splice(vs), []          # two integers at the same level as the other element
         return sym.expand_istr(sym.mk_rope([('istr', vs[0]), ('lit', ';'), ('istr', vs[1])])), []
@@ -629,7 +677,7 @@ def _s6_value(envr, c, kind, tag):
         return ['color256(7)', 'dul_colour256(0x10)'][c.choice(2)], []
     if kind == 'intstr':
         v = c.named_int('s' + tag, 0, 255)
-        c.assume(b_and(i_cmp('!=', v, 38), i_cmp('!=', v, 48), i_cmp('!=', v, 58)))
+        plain(v)
         return sym.expand_istr(sym.mk_rope([('istr', v)])), []
     if kind == 'verbatim':
         return ['[1', '[38;5;1', '[?'][c.choice(3)], []
@@ -651,7 +699,7 @@ def s6_task(envr, item):
     def body(c):
         mu = bool(c.choice(2))
         a, oa = _s6_value(envr, c, ka, 'a')
-        b, ob = _s6_value(envr, c, kb, 'b')
+        b, ob = _s6_value(envr, c, kb, 'b', no_selector=ka in ('intro', 'introstr'))
         ea = I.call_name('texts', I.call_name('_AnsiSettingPoint._scrub_ansi_settings', sym.PList(_elems(a))))
         eb = I.call_name('texts', I.call_name('_AnsiSettingPoint._scrub_ansi_settings', sym.PList(_elems(b))))
         expected = sym.PList(list(ea.items) + list(eb.items))
@@ -675,5 +723,5 @@ GROUPS.append(Group('S6', 'mixtures: a list / tuple of two elements of any two f
                     'string, integer string, verbatim, nested list, empty string, helper result) and the ";"-joined string of two '
                     'string forms yield the settings of the first followed by the settings of the second; make_unique copies',
                     ['C14'], 'B', ['_AnsiSettingPoint._scrub_ansi_settings', '_AnsiSettingPoint._scrub_ansi_format_string'],
-                    s6_items, s6_task, bounds='two elements (one of them may be two integers in a row); 13 forms each with 1-4 representatives, integers symbolic 0..255',
+                    s6_items, s6_task, bounds='two elements (one of them may be two integers in a row); 15 forms each with 1-4 representatives, integers symbolic 0..255',
                     assumes=['S3', 'S5', 'J1']))
